@@ -737,3 +737,13 @@ func noteDegraded(r interface{ Cap(string) }) {
 		r.Cap("instrumentation degraded (light overlay): schedule points at storage operations only, no race oracle")
 	}
 }
+
+// exploreBudget: wall-clock budget of one schedule exploration (see C17): a
+// budget, not an oracle -- an exploration that runs out of it is reported as
+// capped (exhaustive:false), never as a violation.
+func exploreBudget(quick bool) time.Duration {
+	if quick {
+		return 45 * time.Second
+	}
+	return 15 * time.Minute
+}
